@@ -11,7 +11,9 @@ import (
 
 	"verifharness/gen"
 	"verifharness/mc"
+	"verifharness/props/c06"
 	"verifharness/props/reg"
+	"verifharness/sched"
 )
 
 func init() { reg.Register(&reg.Prop{ID: "C05", Run: Run, Replay: Replay}) }
@@ -260,6 +262,9 @@ func Run(r *mc.Run) {
 		return true
 	})
 
+	// parse, render and re-parse at the same time on independent fields: every schedule of small thread programs
+	sched.Explore(r, "concurrent-calls", c06.ConcurrentPrograms())
+
 	// decoding into a value that already holds something
 	reuse := []string{"", "a", "a, b | c", "x:any (>= 1) [amd64 !i386] <!p q> <r>", "${misc:Depends}", "foo (>= 1", "amd64", "linux-any", "gnu-kfreebsd-amd64", "any", "all", "hurd-i386", "a [x]", "b <p>"}
 	reuse = append(reuse, gen.AuditStrings(gen.Nameish, 3)...)
@@ -410,6 +415,9 @@ func Run(r *mc.Run) {
 }
 
 func Replay(scenario string, raw json.RawMessage) []*mc.Violation {
+	if scenario == "concurrent-calls" {
+		return sched.Replay(scenario, c06.ConcurrentPrograms(), raw)
+	}
 	if scenario == "decode-into-reused-value" {
 		var in ReuseIn
 		if mc.UnmarshalInput(raw, &in) == nil {
